@@ -406,6 +406,7 @@ class StmtMixin(object):
 
     def exec_For(self, node, st):
         k, spec = self.loop_spec(node)
+        self.set_carried_roles(node)
         itv = self.ev(node.iter, st)
         if isinstance(itv, PyTuple):
             return self.unroll_for(node, itv.items, st)
@@ -467,6 +468,27 @@ class StmtMixin(object):
             return self.exec_block(node.orelse, st)
         return NORMAL
 
+    def set_carried_roles(self, node):
+        """_c0, _c1, ...: the loop-carried locals (assigned in the body and read there before being assigned), in order of their
+        first read — the accumulator / previous-element variables an invariant has to talk about, whatever they are called"""
+        first = {}
+        stored = set()
+        for stmt in node.body:
+            for x in ast.walk(stmt):
+                if isinstance(x, ast.Name):
+                    k = (x.lineno, x.col_offset)
+                    kind = 'store' if isinstance(x.ctx, (ast.Store, ast.Del)) else 'load'
+                    if kind == 'store':
+                        stored.add(x.id)
+                    # an assignment evaluates its right side first: order a store after the loads of the same statement
+                    key = (stmt.lineno, 1 if kind == 'store' else 0, k)
+                    if x.id not in first or key < first[x.id][0]:
+                        first[x.id] = (key, kind)
+        carried = sorted((v[0], n) for n, v in first.items() if v[1] == 'load' and n in stored)
+        self.roles = dict(getattr(self, 'roles', {}))
+        for j, (_, n) in enumerate(carried):
+            self.roles['_c%d' % j] = n
+
     def exec_While(self, node, st):
         k, spec = self.loop_spec(node)
         names = []
@@ -474,6 +496,7 @@ class StmtMixin(object):
             if isinstance(x, ast.Name) and x.id not in names and x.id in st.env:
                 names.append(x.id)
         names.sort(key=lambda nm: min((y.col_offset for y in ast.walk(node.test) if isinstance(y, ast.Name) and y.id == nm)))
+        self.set_carried_roles(node)
         self.roles = dict(getattr(self, 'roles', {}))
         for j, nm in enumerate(names):
             self.roles['_w%d' % j] = nm           # _w0, _w1, ...: the variables of the loop test, in order of appearance
